@@ -318,6 +318,8 @@ def generate(api):
 
     api.write_gen('LeafRender.v', "\n".join(out))
     gen_morph(api, rs, U, Em)
+    gen_turb(api, rs, U)
+    check_contexts(api, U)
 
 
 def gen_morph(api, rs, U, Em):
@@ -358,3 +360,157 @@ def gen_morph(api, rs, U, Em):
     except (U, OSError, ValueError, IndexError) as ex:
         api.broken('leaf', 'morphology_window', ['C02'], ex)
     api.write_gen('LeafMorph.v', "\n".join(out))
+
+
+def steps_of(e, env, U):
+    """integer expression AST -> (Coq term over Z, [Coq terms of every arithmetic intermediate result]).  Plain `- + * %`
+    are unbounded Z operations (they agree with i32 arithmetic as long as every listed step is within i32: what the
+    theorem states); wrapping_* methods wrap and are therefore always in range."""
+    k = e[0]
+    if k == 'num':
+        v = re.sub(r"_?(i32|u32|i64|usize)$", "", e[1]).replace('_', '')
+        return "(%s)%%Z" % v, []
+    if k == 'var':
+        if e[1] not in env:
+            raise U("unknown variable %s in turbulence arithmetic" % e[1])
+        return env[e[1]], []
+    if k == 'neg':
+        t, st = steps_of(e[1], env, U)
+        r = "(Z.opp %s)" % t
+        return r, st + [r]
+    if k == 'bin' and e[1] in ('+', '-', '*', '%', '/'):
+        a, sa = steps_of(e[2], env, U)
+        b, sb = steps_of(e[3], env, U)
+        r = "(%s %s %s)" % ({'+': 'Z.add', '-': 'Z.sub', '*': 'Z.mul', '%': 'Z.rem', '/': 'Z.quot'}[e[1]], a, b)
+        return r, sa + sb + [r]
+    if k == 'mcall' and e[2] in ('wrapping_mul', 'wrapping_sub', 'wrapping_add', 'wrapping_neg') :
+        a, sa = steps_of(e[1], env, U)
+        if e[2] == 'wrapping_neg':
+            r = "(wrap_i32 (Z.opp %s))" % a
+            return r, sa + [r]
+        b, sb = steps_of(e[3][0], env, U)
+        r = "(wrap_i32 (%s %s %s))" % ({'wrapping_mul': 'Z.mul', 'wrapping_sub': 'Z.sub', 'wrapping_add': 'Z.add'}[e[2]], a, b)
+        return r, sa + sb + [r]
+    raise U("turbulence arithmetic: construct outside the subset: %r" % (e,))
+
+
+def gen_turb(api, rs, U):
+    """Gen/LeafTurb.v: the i32 arithmetic of filter::turbulence that documents can drive to the edge of the range:
+    the seed normalisation of `init`, the per-octave stitch update of `turbulence`, the stitch subtraction of `noise2`."""
+    TREL = 'crates/resvg/src/filter/turbulence.rs'
+    out = [api.HEADER, "From RV Require Import Model.Base Model.RenderPrims.\nLocal Open Scope Z_scope.\n"]
+    try:
+        src = strip_comments(api.rd(TREL))
+        consts = {}
+        for name in ('RAND_M', 'PERLIN_N'):
+            m = re.search(r"const\s+%s\s*:\s*i32\s*=\s*(0x[0-9a-fA-F]+|\d+)\s*;" % name, src)
+            if not m:
+                raise U("const %s not found" % name)
+            consts[name] = "(%d)%%Z" % int(m.group(1), 0)
+
+        def expr_steps(text, env):
+            ast = rs.Parser(rs.tokenize("{ %s }" % text)).block()
+            if ast[1] or ast[2] is None:
+                raise U("not a single expression: %s" % text)
+            return steps_of(ast[2], dict(consts, **env), U)
+        # ---- init: seed normalisation
+        m = re.search(r"if\s+seed\s*<=\s*0\s*\{\s*seed\s*=\s*([^;]+);\s*\}", src)
+        if not m:
+            raise U("`if seed <= 0 { seed = ..; }` not found in turbulence::init")
+        t, st = expr_steps(m.group(1), {'seed': 'seed'})
+        out.append("(* %s :: init: if seed <= 0 { seed = %s; } *)\nDefinition turb_seed_norm (seed : Z) : Z := %s.\n"
+                   "Definition turb_seed_steps (seed : Z) : list Z := [%s].\n" % (TREL, " ".join(m.group(1).split()), t, "; ".join(st)))
+        # ---- turbulence: stitch update per octave
+        m = re.search(r"if\s+let\s+Some\(ref\s+mut\s+stitch\)\s*=\s*stitch\s*\{(.*?)\}", src, re.S)
+        if not m:
+            raise U("`if let Some(ref mut stitch) = stitch { .. }` not found in turbulence")
+        stmts = [x.strip() for x in m.group(1).split(';') if x.strip()]
+        names = {}
+        allsteps = []
+        env = {'width': 'width', 'wrap_x': 'wrap_x', 'height': 'height', 'wrap_y': 'wrap_y'}
+        for stt in stmts:
+            mm = re.match(r"stitch\.(\w+)\s*(\*=|=)\s*(.+)$", stt, re.S)
+            if not mm or mm.group(1) not in env:
+                raise U("unexpected statement in the stitch update: %s" % stt)
+            rhs = re.sub(r"stitch\.(\w+)", r"\1", mm.group(3))
+            if mm.group(2) == '*=':
+                rhs = "%s * (%s)" % (mm.group(1), rhs)
+            t, st = expr_steps(rhs, env)
+            names[mm.group(1)] = t
+            allsteps += st
+        if set(names) != set(env):
+            raise U("the stitch update does not assign width, wrap_x, height, wrap_y exactly: %s" % sorted(names))
+        out.append("(* %s :: turbulence: %s *)\nDefinition turb_stitch_steps (width wrap_x height wrap_y : Z) : list Z := [%s].\n"
+                   "Definition turb_stitch_next (width wrap_x height wrap_y : Z) : Z * Z * Z * Z := (%s, %s, %s, %s).\n"
+                   % (TREL, "; ".join(" ".join(x.split()) for x in stmts), "; ".join(allsteps), names['width'], names['wrap_x'], names['height'], names['wrap_y']))
+        # ---- noise2: lattice wrap-around
+        forms = []
+        for v, f in (('bx0', 'width'), ('bx1', 'width'), ('by0', 'height'), ('by1', 'height')):
+            mm = re.search(r"if\s+%s\s*>=\s*info\.wrap_\w\s*\{\s*%s\s*(-=|=)\s*([^;]+);" % (v, v), src)
+            if not mm:
+                raise U("`if %s >= info.wrap_.. { %s -= info.%s; }` not found in noise2" % (v, v, f))
+            rhs = re.sub(r"info\.(width|height)", "w", mm.group(2))
+            rhs = re.sub(r"\b%s\b" % v, "b", rhs)
+            if mm.group(1) == '-=':
+                rhs = "b - (%s)" % rhs
+            forms.append(" ".join(rhs.split()))
+        if len(set(forms)) != 1:
+            raise U("the four stitch subtractions of noise2 differ: %s" % forms)
+        t, st = expr_steps(forms[0], {'b': 'b', 'w': 'w'})
+        out.append("(* %s :: noise2: %s *)\nDefinition turb_wrap_steps (b w : Z) : list Z := [%s].\n" % (TREL, forms[0], "; ".join(st)))
+        api.ok('leaves', 'turbulence_arith', props=['C02'], rel=TREL)
+    except (U, OSError, ValueError, IndexError) as ex:
+        api.broken('leaf', 'turbulence_arith', ['C02'], ex)
+    api.write_gen('LeafTurb.v', "\n".join(out))
+
+
+# every construction of render::Context in resvg: the layer limit must come from the canvas (lib.rs), from the inherited
+# limit moved into the layer's frame (render.rs), or be one of the two fixed special cases below.  A new / changed
+# literal (e.g. a limit taken from a mask, clip or pattern region) is not covered by the C02 bound: broken tie.
+CONTEXT_LITERALS = {
+    ('lib.rs', 'Context { max_bbox }'): 2,
+    ('render.rs', 'Context { max_bbox: ctx .max_bbox .translate(-ibbox.x(), -ibbox.y()) .unwrap_or(ctx.max_bbox), }'): 1,
+    # clip paths are rendered without nested layers: a 1x1 limit
+    ('clip.rs', 'Context { max_bbox: tiny_skia::IntRect::from_xywh(0, 0, 1, 1).unwrap(), }'): 1,
+    # feImage renders its sub-tree into the region-sized result (known class filter-image-unbounded)
+    ('filter/mod.rs', 'Context { max_bbox: tiny_skia::IntRect::from_xywh(0, 0, region.width(), region.height()).unwrap(), }'): 1,
+}
+
+
+def check_contexts(api, U):
+    root = os.path.join(os.environ.get('VERIF_REPO', '/repo'), 'crates/resvg/src')
+    found = {}
+    try:
+        for d, _, fs in os.walk(root):
+            for f in sorted(fs):
+                if not f.endswith('.rs') or f == 'verif_hooks.rs':
+                    continue
+                rel = os.path.relpath(os.path.join(d, f), root)
+                src = strip_comments(open(os.path.join(d, f), encoding='utf-8').read())
+                for m in re.finditer(r"(?<![A-Za-z_])Context\s*\{", src):
+                    pre = src[max(0, m.start() - 12):m.start()]
+                    if re.search(r"struct\s+$", pre):
+                        continue
+                    b = src.index('{', m.start())
+                    lit = " ".join(src[m.start():balanced(src, b, '{', '}')].split())
+                    found[(rel, lit)] = found.get((rel, lit), 0) + 1
+        bad = [k for k in found if k not in CONTEXT_LITERALS or found[k] != CONTEXT_LITERALS[k]]
+        missing = [k for k in CONTEXT_LITERALS if k not in found]
+        if bad or missing:
+            raise U("render::Context is constructed in a way the C02 layer bound does not cover: unexpected %s; missing %s"
+                    % ([(k[0], k[1][:140], found[k]) for k in bad], [(k[0], k[1][:60]) for k in missing]))
+        # mask / clip / pattern / image code works in layer- or tile-local coordinates: it must not consult the
+        # canvas-derived limit (or anything computed from it) beyond handing `ctx` on to nested rendering
+        for rel, allowed in (('mask.rs', 0), ('path.rs', 0), ('image.rs', 0), ('clip.rs', 1)):
+            src = strip_comments(open(os.path.join(root, rel), encoding='utf-8').read())
+            n = len(re.findall(r"\bmax_bbox\b|\btarget_rect\b", src))
+            if n != allowed:
+                api.broken('leaf', 'context_use.' + rel, ['C13', 'C02'],
+                           "%s mentions max_bbox / a rectangle derived from it %d times (expected %d): canvas-absolute geometry used in "
+                           "layer- or tile-local code" % (rel, n, allowed))
+        rsrc = strip_comments(open(os.path.join(root, 'render.rs'), encoding='utf-8').read())
+        if re.search(r"\bimpl\s+Context\b", rsrc):
+            api.broken('leaf', 'context_use.render.rs', ['C13', 'C02'], "render::Context gained methods (geometry derived from max_bbox) that the model does not have")
+        api.ok('leaves', 'context_literals', props=['C02'], rel='crates/resvg/src/**')
+    except (U, OSError, ValueError) as ex:
+        api.broken('leaf', 'context_literals', ['C02'], ex)
